@@ -512,7 +512,8 @@ STATS = {'z3_queries': 0, 'z3_s': 0.0, 'cvc5_queries': 0, 'cvc5_s': 0.0}
 _RL = [0, None]     # [cumulative rlimit count seen last, consumption of the last check]
 
 
-HEARTBEAT = [None]     # set by the driver's worker: called with the wall-clock cap (s) of the check that is about to start
+HEARTBEAT = [None]     # set by the driver's worker: called with the wall-clock cap (s) of the check that is about to start,
+                       # and with 0 when that check has returned (the worker is back in python code)
 
 
 def beat(cap_s):
@@ -538,6 +539,7 @@ def check_trusted(make_solver, timeout_ms):
     beat(timeout_ms / 1000.0)
     t0 = time.time()
     r = s.check()
+    beat(0)
     dt = time.time() - t0
     try:        # z3's 'rlimit count' is cumulative per context: keep the consumption of this check
         now = s.statistics().get_key_value('rlimit count')
@@ -552,6 +554,7 @@ def check_trusted(make_solver, timeout_ms):
         beat(4 * timeout_ms / 1000.0)
         t1 = time.time()
         r2 = s2.check()
+        beat(0)
         dt2 = time.time() - t1
         if r2 == z3.unsat and dt2 * 1000.0 >= 0.6 * 4 * timeout_ms:
             r2 = z3.unknown
@@ -707,6 +710,7 @@ def solve_ground(assumptions, goal, timeout_ms=10000):
     t0 = time.time()
     beat(60.0)
     r0 = s0.check()
+    beat(0)
     dt0 = time.time() - t0
     if r0 == z3.unsat and dt0 > 0.6 * timeout_ms / 1000.0:
         r0 = z3.unknown            # an unsat arriving at the timeout edge is not trusted
